@@ -412,15 +412,32 @@ class TransitionTask(Task):
                  z3.And(z3.Not(legal), z3.BoolVal(val.cls_name == "ValueError" and sm.fields["current_state"] == "Sta6")))
 
 
+# "ARTIM started/stopped": the action contracts establish WHICH Timer method each action calls; what those calls do to the timer
+# (after start()/restart() it runs from that instant and is not stopped - whatever start/stop history it had; after stop() it is
+# stopped at that instant) is the Timer class contract of C09, re-proved under this id for the three methods the actions use
+RELABEL = {"C09/": "C04/artim:"}
+RELABEL_ONLY = {"C09/": r"Timer\.(start|restart|stop)/"}
+
+
 def tasks(tier):
+    from contracts import C09
     ts = [TableTask(), TransitionTask()]
     ts += [ActionTask(a) for a in sorted(S.ACTIONS)]
     ts += [DoActionTask(e) for e in S.EVENTS]
+    ts += [T(alt) for alt in C09.ALTERNATIVES for T in (C09.Start, C09.Restart, C09.Stop)]
     return ts
+
+
+def postprocess(results):
+    from contracts import C09
+    return C09.postprocess(results)
 
 
 def replay(rec):
     from pyvc.replay import run_replay
+    oid = rec.get("id", "")
+    if oid.startswith("C04/artim:"):
+        return run_replay("C09", dict(rec, id="C09/" + oid[len("C04/artim:"):]))
     return run_replay("C04", rec)
 
 
